@@ -3,7 +3,7 @@ from . import ref
 from .c01_replay import _cfg
 
 
-def replay_roundtrip(msgs, enc, blocked, cfg):
+def replay_roundtrip(msgs, enc, blocked, cfg, many=None):
     from cardutil import mciipm
     cfgs = _cfg(cfg)
     ms = [ref.concrete_msg(m, cfgs) for m in msgs]
@@ -11,8 +11,13 @@ def replay_roundtrip(msgs, enc, blocked, cfg):
     kw = {'iso_config': cfgs} if isinstance(cfg, dict) else {}
     try:
         w = mciipm.IpmWriter(f, encoding=enc, blocked=blocked, **kw)
-        for m in ms:
-            w.write(dict(m))
+        if many == 'list':
+            w.write_many([dict(m) for m in ms])
+        elif many == 'generator':
+            w.write_many(dict(m) for m in ms)
+        else:
+            for m in ms:
+                w.write(dict(m))
         w.close()
         got = list(mciipm.IpmReader(f, encoding=enc, blocked=blocked, **kw))
     except Exception as e:
